@@ -131,6 +131,50 @@ func genC09(r *Rand, n int, thorough bool, emit func(string)) {
 			z = r.Range(7, 24)
 		}
 		emit(fmt.Sprintf("f2r %s %d %d", showInts(l), r.Intn(2), z))
+		if i%25 == 3 {
+			// a stepped run of 18-120 frames (step 2-9) with ONE frame moved off the line by less
+			// than the step (still ascending, still duplicate-free), to be sorted by the library
+			st := r.Range(2, 9)
+			ln := r.Range(18, 120)
+			a := r.Range(-50, 50)
+			run := make([]int, ln)
+			for j := range run {
+				run[j] = a + j*st
+			}
+			k := r.Range(1, ln-2)
+			run[k] += r.Range(1, st-1)
+			if r.Bool() {
+				// present it unsorted
+				x, y := r.Intn(ln), r.Intn(ln)
+				run[x], run[y] = run[y], run[x]
+			}
+			emit(fmt.Sprintf("f2r %s 1 %d", showInts(run), r.Range(0, 4)))
+		}
+		if i%25 == 17 {
+			// a contiguous range presented with its two largest first and its two smallest last
+			// (descending at both ends, hi-lo = count-1) and the middle in any order
+			lo := r.Range(-20, 50)
+			cnt := r.Range(6, 40)
+			mid := make([]int, 0, cnt)
+			for v := lo + 2; v <= lo+cnt-3; v++ {
+				mid = append(mid, v)
+			}
+			switch r.Intn(3) {
+			case 0: // ascending middle
+			case 1: // shuffled middle
+				for x := len(mid) - 1; x > 0; x-- {
+					y := r.Intn(x + 1)
+					mid[x], mid[y] = mid[y], mid[x]
+				}
+			default: // one swap
+				if len(mid) > 2 {
+					mid[0], mid[len(mid)-1] = mid[len(mid)-1], mid[0]
+				}
+			}
+			l := append([]int{lo + cnt - 1, lo + cnt - 2}, mid...)
+			l = append(l, lo+1, lo)
+			emit(fmt.Sprintf("f2r %s 1 %d", showInts(l), r.Range(0, 3)))
+		}
 		if i%50 == 33 {
 			// lists longer than any fixed-size scratch buffer (257-1500 frames), sorted or not
 			ln := r.Range(257, 1500)
